@@ -65,7 +65,7 @@ def driver(chk, n_sign):
 
 def run(chk):
     quick = chk.tier == "quick"
-    variants = ["std", "tiny13"] + ([] if quick else ["tiny7", "tiny199", "verify", "i64", "i128s", "noasm"])
+    variants = ["std", "i64", "tiny13"] + ([] if quick else ["tiny7", "tiny199", "verify", "i64", "i128s", "noasm"])
     chk.build(variants)
     # X: exhaustive small groups (design-level model + replay into the small-group build)
     for o in ([13] if quick else [7, 13, 199]):
@@ -75,7 +75,7 @@ def run(chk):
     chk.exhaustive = True
     # G: boundary constructions in the real group
     recs = chk.generate(MODULE, "C01_gen.cfg", "gen")
-    for v in (["std"] if quick else ["std", "verify", "i64", "i128s", "noasm"]):
+    for v in (["std", "i64"] if quick else ["std", "verify", "i64", "i128s", "noasm"]):
         chk.replay(recs, v, "generated boundary records")
     # T: driver traces from the implementation validated by TLC
     events = driver(chk, 150 if quick else 1500)
